@@ -5,7 +5,7 @@
     [B0] is the base view when the transaction began.  The backup filesystem
     starts with nothing but its root directory (foreign content: see C13). *)
 From stdpp Require Import gmap.
-From BFS Require Export Spec.Laws.
+From BFS Require Export Spec.Laws Spec.Laws2.
 
 Section Inv.
   Variables base backup : fsapi.
@@ -17,6 +17,8 @@ Section Inv.
 
   Definition base_laws := api_laws base Vb Vk tnb accb rhb whb.
   Definition backup_laws := api_laws backup Vk Vb tnk acck rhk whk.
+  (** the reading laws of Spec/Laws2.v are needed for the base only *)
+  Definition base_laws2 := api_laws2 base Vb Vk tnb accb rhb whb.
 
   Variable B0 : store.
 
@@ -71,34 +73,83 @@ Section Inv.
       absolute, no symlink among its parents *)
   Definition resolved (w : world) (n : str) : Prop := snolinkpar (Vb w) n.
 
-  (** the operations of the first proof phase (each: resolve, back up, one base call) *)
+  (** the operations covered by the step theorem: the mutating ones resolve
+      their name(s), back them up, and issue one call (OpenWrite, Create: and
+      write through the handle) on the base; RemoveAll looks at the target
+      and removes a directory entry by entry (Walk); the read-only ones
+      (and OpenFile with flags 0) are forwarded to the base as they are *)
   Inductive simple_op : op -> Prop :=
     | SoCreate n d : simple_op (OCreate n d)
+    | SoOpenWrite n fl perm d : simple_op (OOpenWrite n fl perm d)
     | SoMkdir n perm : simple_op (OMkdir n perm)
+    | SoMkdirAll n perm : simple_op (OMkdirAll n perm)
     | SoRemove n : simple_op (ORemove n)
+    | SoRemoveAll n : simple_op (ORemoveAll n)
+    | SoRename o n : simple_op (ORename o n)
     | SoSymlink t n : simple_op (OSymlink t n)
     | SoChmod n m : simple_op (OChmod n m)
     | SoChown n u g : simple_op (OChown n u g)
     | SoLchown n u g : simple_op (OLchown n u g)
-    | SoChtimes n t : simple_op (OChtimes n t).
+    | SoChtimes n t : simple_op (OChtimes n t)
+    | SoStat n : simple_op (OStat n)
+    | SoLstat n : simple_op (OLstat n)
+    | SoReadlink n : simple_op (OReadlink n)
+    | SoRead n : simple_op (ORead n)
+    | SoReaddir n : simple_op (OReaddir n).
 
-  Definition op_name (o : op) : str :=
+  (** the names an operation hands to BackupFS (Rename: source, then target) *)
+  Definition op_names (o : op) : list str :=
     match o with
-    | OCreate n _ | OMkdir n _ | ORemove n | OSymlink _ n | OChmod n _ | OChown n _ _
-    | OLchown n _ _ | OChtimes n _ => n
+    | OCreate n _ | OOpenWrite n _ _ _ | OMkdir n _ | OMkdirAll n _ | ORemove n | ORemoveAll n
+    | OSymlink _ n | OChmod n _ | OChown n _ _ | OLchown n _ _ | OChtimes n _
+    | OStat n | OLstat n | OReadlink n | ORead n | OReaddir n => [n]
+    | ORename o n => [o; n]
     | _ => []
     end.
 
-  (** operations that follow a symlink in the final component (recorded finding D14) *)
-  Definition follows (o : op) : bool :=
-    match o with OCreate _ _ | OChmod _ _ | OChown _ _ _ | OChtimes _ _ => true | _ => false end.
+  (** the first of them *)
+  Definition op_name (o : op) : str :=
+    match op_names o with n :: _ => n | [] => [] end.
 
-  (** the side conditions under which an operation is covered: the name is
-      resolved, it does not follow a final symlink, and it does not leave a
-      tracked path with another type (D13) *)
+  (** operations that descend into the directory they name *)
+  Definition deep (o : op) : bool := match o with ORemoveAll _ => true | _ => false end.
+
+  (** the paths at which an operation may add bookkeeping: those on the chain
+      from the root to one of its names or - for a deep operation - to
+      something below one of its names *)
+  Definition op_touches (o : op) (q : str) : Prop :=
+    exists n s, In n (op_names o) /\ (s = n \/ (deep o = true /\ In n (ancestors s))) /\
+                In q (cands s).
+
+  (** mutating operations that follow a symlink in the final component
+      (recorded finding D14); OpenFile with flags 0 is forwarded without backup *)
+  Definition follows (o : op) : bool :=
+    match o with
+    | OCreate _ _ | OChmod _ _ | OChown _ _ _ | OChtimes _ _ => true
+    | OOpenWrite _ fl _ _ => negb (N.eqb fl 0)
+    | _ => false
+    end.
+
+  (** Rename is covered for a source without children in the view (a file, a
+      symlink, an empty directory, or nothing at all); a directory with
+      entries is the recorded finding "rename of a non-empty directory" *)
+  Definition rename_source_leaf (o : op) (w : world) : Prop :=
+    match o with ORename old _ => no_children (Vb w) old | _ => True end.
+
+  (** RemoveAll of the root itself is not covered (recorded finding "removes
+      the root"); everything else is: nothing, a file, a symlink, a directory
+      with whatever lies below it *)
+  Definition removeall_not_root (o : op) : Prop :=
+    match o with ORemoveAll n => n <> s_root | _ => True end.
+
+  (** the side conditions under which an operation is covered: its names are
+      resolved, it does not follow a final symlink, and the two restrictions
+      above (that it does not leave a tracked path with another type, D13, is
+      [kind_stable] of the state it ends in: see [step_stmt], [good_run]) *)
   Definition covered (o : op) (w : world) : Prop :=
-    simple_op o /\ resolved w (op_name o) /\
-    (follows o = true -> snotlink (Vb w) (op_name o)).
+    simple_op o /\ Forall (resolved w) (op_names o) /\
+    (follows o = true -> Forall (snotlink (Vb w)) (op_names o)) /\
+    rename_source_leaf o w /\ removeall_not_root o.
 
   Definition kind_stable (w' : world) : Prop :=
     (forall p fi n, w_infos w' !! p = Some (Some fi) -> Vb w' !! p = Some n -> node_kind n = fi_kind fi) /\
